@@ -2,6 +2,7 @@ package main
 
 import (
 	"fmt"
+	"strings"
 
 	"verif/internal/dsl"
 	"verif/internal/space"
@@ -167,6 +168,19 @@ func c10Cases(tier string) []*space.Case {
 				fl.Comment = commentForms[(idx+shift)%len(commentForms)]
 			})
 			add(b.name, fmt.Sprintf("comments/shift%d", shift), f, c)
+		}
+	}
+	// E. the same with the non-root messages declared in an imported file of the same package
+	// (comment locations are relative to the declaring file)
+	for _, c := range append([]*space.Case{}, out...) {
+		if strings.HasPrefix(c.Tags["card"], "comments/shift") || c.Tags["card"] == "flags/path/shift0" || c.Tags["card"] == "injected/nested" {
+			if tier != "thorough" && strings.HasPrefix(c.Tags["card"], "comments/shift") && !strings.HasSuffix(c.Tags["card"], "shift0") && !strings.HasSuffix(c.Tags["card"], "shift1") {
+				continue
+			}
+			if sc := space.Split(c); sc != nil {
+				sc.Tags["card"] += "/split-files"
+				out = append(out, sc)
+			}
 		}
 	}
 	return out
